@@ -186,6 +186,11 @@ def make_values():
         'nested': {'k': [{'a': [1, {'b': 2}]}, 'x'], 'z': {'y': {'x': 0}}},
         'mixedkeys': {1: 'a', 'two': 'b', 2.5: 'c', None: 'd'},
         'unsorted': {'zeta': 1, 'alpha': 2, 'mid': {'y': 1, 'b': 2}, 'beta': 3},
+        # ==-equal scalars of different type or sign (whatever memoises by value must not confuse them)
+        'zero_pos': [0.0, {'z': 0.0}, 0, False],
+        'zero_neg': [-0.0, {'z': -0.0}, False, 0],
+        'ones': [1, True, 1.0, {'k': True}],
+        'ones2': [1.0, 1, True, {'k': 1}],
         'ukeys': {'caf\u00e9': 1, '\u4e2d\u6587': [1], 'na\u00efve key': {'\u00fc': '\u00e9'}, '\U0001F600': None, 'plain': 'caf\u00e9'},
     }
 
@@ -424,7 +429,9 @@ def run_op(yaml, op, ctx):
                 else:
                     res = yaml.dump_all(src, stream, Dumper=D, **opts)
             elif api in ('serialize', 'serialize_all'):
-                nodes = list(yaml.compose_all(doc_text(op), Loader=yaml.SafeLoader))
+                # the caller keeps its node / event objects and hands the SAME objects to later calls of the history
+                nodes = list(ctx.setdefault('kept_nodes', {}).setdefault(observe.digest([op['docs'], op.get('terminate')]),
+                                                                        list(yaml.compose_all(doc_text(op), Loader=yaml.SafeLoader))))
                 if op.get('wrap'):
                     nodes = [yaml.SequenceNode('tag:yaml.org,2002:seq', [nodes[0]])]
                 if op.get('same_node'):
@@ -436,7 +443,8 @@ def run_op(yaml, op, ctx):
                 if op.get('bad'):
                     events = bad_events(yaml, op['bad'])
                 else:
-                    events = list(yaml.parse(doc_text(op), Loader=yaml.SafeLoader))
+                    events = ctx.setdefault('kept_events', {}).setdefault(observe.digest([op['docs'], op.get('terminate')]),
+                                                                          list(yaml.parse(doc_text(op), Loader=yaml.SafeLoader)))
                 res = yaml.emit(events, stream, Dumper=D, **opts)
             obs['returned'] = res if not isinstance(res, bytes) else {'bytes': res.hex()}
         except kernel.Hang:
@@ -633,7 +641,7 @@ def gen_dump_op(r, reent_ok=True):
     return op
 
 
-VALUE_IDS = ['mixedkeys', 'unsorted', 'ukeys', 'plain', 'shared', 'shared_list', 'rec', 'recm', 'obj', 'obj_shared', 'strs', 'set', 'dates', 'bytes', 'tuple', 'big',
+VALUE_IDS = ['zero_pos', 'zero_neg', 'ones', 'ones2', 'mixedkeys', 'unsorted', 'ukeys', 'plain', 'shared', 'shared_list', 'rec', 'recm', 'obj', 'obj_shared', 'strs', 'set', 'dates', 'bytes', 'tuple', 'big',
              'unrepr', 'scalar', 'none', 'nested']
 
 
@@ -651,13 +659,54 @@ def gen_op(r, reent_ok=True):
     return gen_load_op(r, reent_ok) if x < 0.58 else gen_dump_op(r, reent_ok)
 
 
-RELATED_VALUES = [['mixedkeys', 'unsorted', 'plain', 'nested'], ['shared', 'shared_list', 'rec', 'recm', 'obj_shared'],
+RELATED_VALUES = [['zero_pos', 'zero_neg', 'ones', 'ones2'], ['mixedkeys', 'unsorted', 'plain', 'nested'], ['shared', 'shared_list', 'rec', 'recm', 'obj_shared'],
                   ['ukeys', 'strs', 'scalar'], ['dates', 'set', 'tuple', 'bytes']]
 
 
 def related_values(r, n, unsorted=False):
     g = [v for v in r.choice(RELATED_VALUES) if not (v == 'set' and unsorted)]
     return [r.choice(g) for _ in range(n)]
+
+
+def twin_op(r, op):
+    """A call closely related to the one before it: the same events / nodes emitted under other options or by another
+    dumper class; an ==-equal value (1 / True / 1.0, 0.0 / -0.0) dumped by the same dumper.  None: no twin."""
+    if r.random() >= 0.3 or op.get('fault') or op.get('between') or op.get('nested'):
+        return None
+    api = op['api']
+    if api == 'emit' and not op.get('bad'):
+        return dict(op, opts=r.choice([o for o in EMIT_OPTS if o != op.get('opts')] or EMIT_OPTS), cls=r.choice([op['cls'], r.choice(DUMPERS)]), to='return')
+    if api in ('serialize', 'serialize_all'):
+        return dict(op, opts=r.choice(sorted(SERIALIZE_OPTS)), cls=r.choice([op['cls'], r.choice(DUMPERS)]), to='return')
+    if api in ('dump', 'dump_all') and op.get('vals') and not op.get('evolve'):
+        vals = []
+        for v in op['vals']:
+            if isinstance(v, list):
+                vals.append(equal_variant(r, v))
+            else:
+                vals.append({'zero_pos': 'zero_neg', 'zero_neg': 'zero_pos', 'ones': 'ones2', 'ones2': 'ones'}.get(v, v))
+        return dict(op, vals=vals, to='return')
+    return None
+
+
+def equal_variant(r, rc):
+    """The recipe with some numbers replaced by ==-equal ones of another type or sign."""
+    t = rc[0]
+    if t in ('int', 'bool', 'float'):
+        try:
+            v = values.build(rc)
+            if v == 1:
+                return r.choice([['int', 1], ['bool', True], ['float', '1.0']])
+            if v == 0:
+                return r.choice([['int', 0], ['bool', False], ['float', '0.0'], ['float', '-0.0']])
+        except (ValueError, OverflowError):
+            pass
+        return rc
+    if t in ('list', 'tuple'):
+        return [t, [equal_variant(r, x) for x in rc[1]], rc[2]]
+    if t == 'dict':
+        return [t, [[k, equal_variant(r, x)] for k, x in rc[1]], rc[2]]
+    return rc
 
 
 def gen_gen_op(r):
@@ -780,7 +829,11 @@ def generate(seed, tier):
                 steps.append({'t': 'load_session', 'op': op, 'inner': [inner_group() or (first if isinstance(first, list) else [first])]})
             continue
         if k == 'call':
-            steps.append({'t': 'call', 'op': gen_op(r)})
+            op = gen_op(r)
+            steps.append({'t': 'call', 'op': op})
+            tw = twin_op(r, op)
+            if tw is not None:
+                steps.append({'t': 'call', 'op': tw})
         elif k == 'fault':
             op = gen_op(r, reent_ok=False)
             if op['api'] in ('load', 'load_all', 'compose', 'compose_all', 'parse', 'scan'):
